@@ -296,6 +296,17 @@ class Gen:
             o += ['jmp %s' % le, '%s:' % lb]
             o += self.stmts(f, 1, depth + 1, inloop)
             o.append('%s:' % le)
+        elif r < 0.805 and depth < 3 and self.ok('lref') and self.ok('laddr') and f.kind != 'va':
+            # label difference in data (`lref La, Lb` = &La - &Lb in the running engine) added to a label address
+            self.feats.add('lref_diff')
+            la, lb, le = (self.newlab(f) for _ in range(3))
+            tab = 'lt_%s_%d' % (f.name, len(f.lrefs))
+            f.lrefs.append((tab, [(la, lb)]))
+            o += ['laddr t1, %s' % lb, 'mov t3, %s' % tab, 'add t1, t1, i64:(t3)', 'jmpi t1', '%s:' % lb]
+            o += self.stmts(f, 1, depth + 1, inloop)
+            o += ['jmp %s' % le, '%s:' % la]
+            o += self.stmts(f, 1, depth + 1, inloop)
+            o.append('%s:' % le)
         elif r < 0.82 and self.ok('alloca') and inloop == 1 and depth == 0:
             self.feats.add('alloca')
             # a register written by nothing but this alloca (MIR_link hoists constant-size allocas of
@@ -482,7 +493,7 @@ class Gen:
                         txt.append('%sref %s, 0' % ('ft_%s: ' % f.name if i == 0 else '  ', n))
                 for tab, labs in f.lrefs:
                     for i, l in enumerate(labs):
-                        txt.append('%slref %s' % (tab + ': ' if i == 0 else '  ', l))
+                        txt.append('%slref %s' % (tab + ': ' if i == 0 else '  ', l if isinstance(l, str) else '%s, %s' % l))
             txt.append('  endmodule')
         return '\n'.join(txt) + '\n'
 
